@@ -24,6 +24,7 @@ from pexpect.expect import searcher_re, searcher_string
 from pexpect.spawnbase import SpawnBase
 
 from ..hooks.vclock import VClock
+from ..core.watchdog import CaseTimeout
 from ..models.expect_ref import (RefEngine, Hang, EOF_M, TIMEOUT_M)
 
 DEFAULT_TIMEOUT = 30
@@ -255,6 +256,8 @@ class Run(object):
                 ret = exc = None
                 try:
                     ret = orig(child, *a, **kw)
+                except CaseTimeout:
+                    raise
                 except BaseException as e:
                     exc = e
                 rec = CallRec()
@@ -319,6 +322,8 @@ class Run(object):
                 child.buffer = conv(op['v'])
             else:
                 raise ValueError(k)
+        except CaseTimeout:
+            raise
         except BaseException as e:
             exc = e
         return ret, exc, self.engine_calls[n0:]
